@@ -41,6 +41,7 @@ def run(R, tier, seed, driver_ok):
     R.assumptions = ['the eigen-decomposition inside the PSD projection is external (its output is what the twin projects)',
                      'max_proj: default (10000) in the first stream; small in the second stream, where the first cycle is re-simulated and instances whose first projection does not converge are outside the quantifier']
     lines, meta = [], []
+    runlines, runmeta = [], []
     extra = 24 if tier == 'quick' else 150
     for rep in range(reps + extra):
         # second stream: a small max_proj with an initial matrix whose FIRST projection is cheap (a multiple of the
@@ -108,6 +109,16 @@ def run(R, tier, seed, driver_ok):
             fs1_marks.append(len(fd_calls))
             return o_fs1(self_, pos_, A_)
         mm._BaseMMC._fD = spy_fd; mm._BaseMMC._fS1 = spy_fs1
+        # the eigen-decompositions the projection loops ask for, grouped by cycle (two _fD calls close a cycle)
+        eigh_rec = []
+        o_eigh = np.linalg.eigh
+
+        def spy_eigh(a_, *aa, **kk_):
+            out = o_eigh(a_, *aa, **kk_)
+            if np.ndim(a_) == 2 and not aa and not kk_:
+                eigh_rec.append((len(fd_calls) // 2, np.array(out[0], copy=True), np.array(out[1], copy=True)))
+            return out
+        np.linalg.eigh = spy_eigh
         outcome = 'ok'
         buf = io.StringIO()
         try:
@@ -128,6 +139,7 @@ def run(R, tier, seed, driver_ok):
             outcome = type(e).__name__
         finally:
             mm._initialize_metric_mahalanobis = orig
+            np.linalg.eigh = o_eigh
             mm._BaseMMC._fD = o_fd; mm._BaseMMC._fS1 = o_fs1
         R.case(('c14', pairs.tobytes().hex()[:64], init_kind, diagonal, max_iter, tol, dc, supervised, max_proj), True,
                sample={'d': d, 'n_pairs': len(yy), 'init': init_kind, 'diagonal': diagonal, 'max_iter': max_iter, 'max_proj': max_proj, 'outcome': outcome},
@@ -154,6 +166,16 @@ def run(R, tier, seed, driver_ok):
             R.violation('MMC/not-psd', 'learned matrix is not symmetric PSD', case)
         if np.abs(M - est.A_).max() > 1e-8 * nm:
             R.violation('MMC/components-vs-A_', 'components_ does not reproduce the stored A_', case)
+        # the whole loop replayed by the model (mmcCycle with the model's projections, objective, gradients) with the recorded
+        # decompositions as oracle; a second line from an initial matrix perturbed in the last bit probes rounding sensitivity
+        ncyc = len(fd_calls) // 2
+        groups = [[(l_, V_) for c_, l_, V_ in eigh_rec if c_ == c] for c in range(ncyc)]
+        if ncyc and all(len(g) for g in groups) and sum(len(g) for g in groups) <= 4000:
+            flat = ' '.join(f'{len(g)} ' + ' '.join(bits(np.concatenate([l_, V_.ravel()])) for l_, V_ in g) for g in groups)
+            for A0_ in (A0, A0 * (1 + 2.2e-16 * rng.randn(*A0.shape))):
+                A0s = (A0_ + A0_.T) / 2 if A0_ is not A0 else A0
+                runlines.append(f'mmc_run {d} {len(S)} {len(Dn)} {bits(A0s)} {bits(S)} {bits(Dn)} {f2b(tol)} {max_iter} {max_proj} {ncyc} {flat}')
+            runmeta.append((np.array(est.A_, copy=True), int(est.n_iter_), dict(case)))
         t = np.einsum('ij,jk,ik->', S, A0, S) / 100.0
         ssum = np.einsum('ij,jk,ik->', S, M, S)
         # the property's quantifier: max_proj large enough for the projections of the first cycle to converge
@@ -227,6 +249,29 @@ def run(R, tier, seed, driver_ok):
                 R.violation('MMC/zero-budget', 'MMC(max_iter=0) does not return the initial matrix', {'pairs': X[idx], 'y': yy})
         except Exception as e:
             R.violation(f'MMC/fit-raises-{type(e).__name__}/zero-budget', f'MMC(max_iter=0).fit raised {type(e).__name__}: {str(e)[:160]}', {'pairs': X[idx], 'y': yy})
+    if driver_ok and runlines:
+        outs = lean_run(runlines)
+        worst = 0.0
+        for i_, (Af, nit, case) in enumerate(runmeta):
+            tk, tkp = outs[2 * i_].split(), outs[2 * i_ + 1].split()
+            if tk[:1] != ['ok'] or len(tk) != 3 + Af.size:
+                R.broken('driver:mmc_run', f'model driver answered {outs[2 * i_][:80]}', case); continue
+            Am = parse_ok_floats('ok ' + ' '.join(tk[3:])).reshape(Af.shape)
+            scale = max(np.abs(Af).max(), 1e-300)
+            if tkp[:1] == ['ok'] and len(tkp) == len(tk) and tkp[1] == tk[1] and tkp[2] == '0':
+                sens = float(np.abs(parse_ok_floats('ok ' + ' '.join(tkp[3:])).reshape(Af.shape) - Am).max()) / scale
+            else:
+                sens = 1.0
+            if tk[2] != '0' and sens >= 1.0:
+                R.count('mmc_run:skipped-rounding-sensitive'); continue
+            if 1e3 * sens > 1e-4:
+                R.count('mmc_run:skipped-rounding-sensitive'); continue
+            rel = float(np.abs(Am - Af).max()) / scale
+            worst = max(worst, rel)
+            if tk[2] != '0' or rel > 1e-8 + 1e3 * sens or int(tk[1]) != nit:
+                R.broken('correspondence:C14:mmc_run', f"the model of the projected-gradient loop ends after {tk[1]} cycles (implementation n_iter_={nit}) at a stored matrix that differs from A_ by {rel:.3g} (relative); projection-count / decomposition-contract flag {tk[2]}; rounding sensitivity {sens:.3g}", case)
+        R.count('mmc_run_traces', len(runmeta))
+        R.extra['mmc_run_worst_relative_difference'] = worst
     if driver_ok and lines:
         outs = lean_run(lines)
         for o, (kind, impl, tol, what, case) in zip(outs, meta):
